@@ -6,6 +6,7 @@ mod driver;
 mod engine;
 mod engine_cli;
 mod engine_fsfault;
+mod engine_imports;
 mod gen_project;
 mod job;
 mod prng;
